@@ -203,6 +203,10 @@ func (w *World) Apply(a *Action) Result {
 			ids[i] = eventlogger.NodeID(s)
 		}
 		err := w.b.RegisterPipeline(eventlogger.Pipeline{PipelineID: eventlogger.PipelineID(a.P), EventType: eventlogger.EventType(a.T), NodeIDs: ids}, pipeOpt(a.Pol)...)
+		// the definition stays the caller's: what it does with its slice afterwards is no business of the registry
+		for i := range ids {
+			ids[i] = "scribbled-over-by-the-caller"
+		}
 		if err != nil {
 			return Result{R: "err", Closed: w.closedSince(before)}
 		}
